@@ -54,3 +54,29 @@ package store
 //@     ensures wellformed_nonneg [C07]: result == false && fnErr == nil && !readBytes && cl <= sl ==> fnLen >= 0
 //@     ensures data_offset [C07]: result == false && fnErr == nil && !readBytes ==> fnOffset == wrap_s64(wrap_s64(offset) + vsize(sl) + cl)
 //@   end
+
+//@ func ResumableVersion
+//@   let version, verr := call[car.ReadVersion#0]
+//@   ensures accept_only_matching [C12]: err == nil ==> verr == nil && ((version == 1 && writeAsV1) || (version == 2 && !writeAsV1))
+//@   ensures reject_mismatch [C12]: verr == nil && !((version == 1 && writeAsV1) || (version == 2 && !writeAsV1)) ==> err != nil
+
+//@ func Resume
+//@   requires writer: dataWriter != nil && objinv(dataWriter)
+//@   requires index: idx != nil
+//@   let header, herr := call[carv1.ReadHeader#0]
+//@   let matches := call[CarHeader.Matches#0]
+//@   let hsize, hserr := call[carv1.HeaderSize#0]
+//@   let length, lerr := call[varint.ReadUvarint#0]
+//@   let n, c, cerr := call[cid.CidFromReader#0]
+//@   effects require validated [C12]: herr == nil && matches && (v1 || cur(headerInFile).DataOffset == 0 || (cur(headerInFile).DataOffset == dataOffset && cur(headerInFile).DataSize != 0))
+//@   call[CarHeader.Matches#0] assert roots [C12]: arg1.Version == 1 && arg1.Roots == roots
+//@   call[iface.Truncate#0] assert size [C12]: arg1 == wrap_s64(wrap_u64(cur(headerInFile).DataOffset + cur(headerInFile).DataSize))
+//@   call[Header.WriteTo#0] assert zero_header [C06,C12]: arg0.DataOffset == 0 && arg0.DataSize == 0 && arg0.IndexOffset == 0 && arg0.Characteristics.Hi == 0 && arg0.Characteristics.Lo == 0 && wn(arg1) == 11
+//@   loop[0] invariant offset [C01,C06,C12]: sectionOffset == wrap_s64(pos(v1r) - sbase(v1r))
+//@   loop[0] invariant reader_ok [C12]: objinv(v1r)
+//@   loop[0] step every_section_indexed [C01,C06,C12]: nrec(idx) == athead(0, nrec(idx)) + 1
+//@   call[InsertionIndex.InsertNoReplace#0] assert record [C01,C03,C06,C12]: ref(arg0) == ref(idx) && arg1 == c && arg2 == wrap_u64(wrap_s64(athead(0, pos(v1r)) - sbase(v1r)))
+//@   call[OffsetWriteSeeker.Seek#0] assert reposition [C06,C12,C16]: ref(arg0) == ref(dataWriter) && arg1 == wrap_s64(athead(0, pos(v1r)) - sbase(v1r)) && arg2 == 0
+//@   check positioned [C06,C12,C16]: err == nil ==> wn(dataWriter) == wrap_s64(wrap_s64(athead(0, pos(v1r)) - sbase(v1r)) + wbase(dataWriter))
+//@   ensures reject_roots [C12]: herr == nil && !matches ==> err != nil
+//@   ensures reject_header [C12]: herr != nil ==> err != nil
